@@ -854,7 +854,7 @@ pub fn run(tier: &str) -> i32 {
 
   rep.assume("R6 written from the property text: t0 = 144*456 at power-on; p = t mod 70224, LY = p div 456, d = p mod 456; mode 1 on lines 144-153, else 2 (d<80), 3 (d<268), 0; VBlank at LY->144; STAT sources: mode 2 at d=0 of lines 0-143, mode 0 at d=268, mode 1 at LY->144, LYC at d=0 of line LYC (all 154 lines, including LY becoming 0)");
   rep.assume("returned flags are a bit set: several R6 STAT sources inside one batch are indistinguishable from one; the batch is judged on VBlank bit == 'LY becomes 144 in (t,t+b]' and STAT bit == 'some enabled source fires in (t,t+b]'");
-  rep.assume("STAT and LYC are written before time starts and the flag returned by the setters is ignored (write-time requests are not judged); STAT bit 7 is not judged; LCDC = 0x91, VRAM and OAM all zero");
+  rep.assume("STAT and LYC are written before time starts and the flag returned by the setters is ignored (write-time requests are not judged); STAT bit 7 is not judged; LCDC = 0x91, VRAM and OAM all zero in the device-level stages; stage in-the-machine repeats everything with LCDC = 0xF7, 40 objects, a window and non-zero video RAM");
   rep.assume("batches are multiples of 4 clocks (run_clock_cycles subtracts 4 per iteration)");
   rep.assume("each batch is judged as a transition from a synchronised position: if after a batch the public state agrees but the hook shows a different dot count, the reference is realigned silently (silent_realignments; 0 on a conforming PPU) and the defect is reported by the walk that samples the differing instant; a STAT request mismatch in a batch whose LY/mode also diverge is folded into that divergence finding");
   rep.assume("after a reported LY/mode divergence the reference is re-synchronised to the PPU position read through the verif_position() hook; while the PPU is at a (line, mode, dots) triple that does not exist on the schedule, batches are executed but not judged (counted as lost_batches); absolute-time facts are measured without re-synchronisation in the whole-run stage");
@@ -956,10 +956,15 @@ pub fn run(tier: &str) -> i32 {
       ("8+632 then 1000s", { let mut v = vec![8u32, 632]; v.extend(vec![1000u32; 72]); v }),
       ("whole frames", vec![70224, 70224]),
       ("60/252 alternating", { let mut v = Vec::new(); for _ in 0..240 { v.push(60); v.push(252); } v }),
+      ("to line 0, then 4-clock steps", { let mut v = vec![4560u32]; v.extend(vec![4u32; 456 * 3 / 4]); v }),
     ];
     let ns = schedules.len() as u64;
     let cfg_masks: [u8; 3] = [0x00, 0x78, 0x45];
-    let total_cases = ns * 4 * cfg_masks.len() as u64 * 2;
+    // what is on the screen: nothing (LCDC = 0x91, video RAM and OAM zero), or every feature
+    // switched on with 40 objects spread over the first lines, a window and a scrolled
+    // background — the schedule of the statement does not depend on it
+    const SCENE_NAME: [&str; 2] = ["", "+objects-and-window"];
+    let total_cases = ns * 4 * cfg_masks.len() as u64 * 2 * 2;
     let opts = PoolOpts { chunk: 2, bitmap_bits: 1 << 12, samples_per_child: 1, ..PoolOpts::default() };
     let r = run_pool(
       total_cases,
@@ -974,13 +979,27 @@ pub fn run(tier: &str) -> i32 {
         let dctx = ((case / ns) % 4) as usize;
         let mask = cfg_masks[((case / ns / 4) % cfg_masks.len() as u64) as usize];
         let lyc: u8 = if (case / ns / 4 / cfg_masks.len() as u64) % 2 == 0 { 0 } else { 144 };
+        let scene = ((case / ns / 4 / cfg_masks.len() as u64 / 2) % 2) as usize;
+        let cname = format!("{}{}", CTX_NAME[dctx], SCENE_NAME[scene]);
         let (sname, sched) = &schedules[si];
         core.memory.io = crate::devices::io::IO::new();
         core.memory.oam_dma = None;
         let m = &mut core.memory as *mut crate::mem::MemoryAreas;
         let wr = |a: u16, v: u8| crate::mem::memory_write_byte(m, a, v);
         let rd = |a: u16| crate::mem::memory_read_byte(m as *const crate::mem::MemoryAreas, a);
-        wr(0xFF40, 0x91);
+        for i in 0..0xA0u16 {
+          // object i: Y = 16 + 4 * (i / 4) (four objects start every fourth line), X = 8 + 4 i
+          let v = if scene == 0 { 0 } else { match i % 4 { 0 => 16 + 4 * (i / 16) as u8, 1 => 8 + (i / 4) as u8 * 4, 2 => (i / 4) as u8, _ => ((i / 4) as u8) << 5 } };
+          wr(0xFE00 + i, v);
+          wr(0xC100 + i, v); // the page the DMA contexts copy from
+        }
+        for a in 0x8000..0xA000u16 {
+          wr(a, if scene == 0 { 0 } else { (a as u8).wrapping_mul(7) ^ (a >> 8) as u8 });
+        }
+        wr(0xFF40, if scene == 0 { 0x91 } else { 0xF7 });
+        wr(0xFF43, if scene == 0 { 0 } else { 5 });
+        wr(0xFF4A, if scene == 0 { 0 } else { 8 });
+        wr(0xFF4B, if scene == 0 { 0 } else { 60 });
         wr(0xFF41, mask);
         wr(0xFF45, lyc);
         if dctx & 2 != 0 {
@@ -991,7 +1010,7 @@ pub fn run(tier: &str) -> i32 {
           wr(0xFF46, 0xC1);
         }
         wr(0xFF0F, 0);
-        ctx.sample(|| J::obj().set("stage", J::s("in-the-machine")).set("stat_written", J::u(mask as u64)).set("lyc", J::u(lyc as u64)).set("context", J::s(CTX_NAME[dctx])).set("schedule", J::s(*sname)));
+        ctx.sample(|| J::obj().set("stage", J::s("in-the-machine")).set("stat_written", J::u(mask as u64)).set("lyc", J::u(lyc as u64)).set("context", J::s(cname.as_str())).set("schedule", J::s(*sname)));
         let mut t = T0;
         for (bi, b) in sched.iter().enumerate() {
           core.memory.run_clock_cycles(crate::timing::ClockCycles(*b as usize));
@@ -1007,9 +1026,9 @@ pub fn run(tier: &str) -> i32 {
           ctx.class(0x100000 | ((dctx as u64) << 12) | ((ely as u64) << 4) | ((want.2 as u64) << 1) | want.3 as u64);
           if got != want {
             let field = if got.0 != want.0 { "ly" } else if got.1 != want.1 { "stat-bits" } else if got.2 != want.2 { "vblank" } else { "stat-request" };
-            ctx.violation(&format!("C14 event={} via=machine context={}", field, CTX_NAME[dctx]), || {
+            ctx.violation(&format!("C14 event={} via=machine context={}", field, cname), || {
               J::obj()
-                .set("case", J::obj().set("via", J::s("bus writes + MemoryAreas::run_clock_cycles")).set("stat_written", J::u(mask as u64)).set("lyc", J::u(lyc as u64)).set("context", J::s(CTX_NAME[dctx])).set("schedule", J::s(*sname)).set("batch_index", J::u(bi as u64)).set("clocks_since_power_on", J::u(t - T0)))
+                .set("case", J::obj().set("via", J::s("bus writes + MemoryAreas::run_clock_cycles")).set("stat_written", J::u(mask as u64)).set("lyc", J::u(lyc as u64)).set("context", J::s(cname.as_str())).set("schedule", J::s(*sname)).set("batch_index", J::u(bi as u64)).set("clocks_since_power_on", J::u(t - T0)))
                 .set("expected", J::obj().set("ly", J::u(want.0 as u64)).set("stat", J::u(want.1 as u64)).set("vblank_request", J::Bool(want.2)).set("stat_request", J::Bool(want.3)))
                 .set("observed", J::obj().set("ly", J::u(got.0 as u64)).set("stat", J::u(got.1 as u64)).set("vblank_request", J::Bool(got.2)).set("stat_request", J::Bool(got.3)))
             });
@@ -1019,7 +1038,7 @@ pub fn run(tier: &str) -> i32 {
       },
       |case, how| (format!("C14 via=machine crash={}", how), J::obj().set("case", J::u(case))),
     );
-    let cm = rep.add_stage("in-the-machine", "STAT byte {00,78,45} x LYC {0,144} x device context {idle, OAM DMA in flight, timer on, both} x 6 batch schedules over 1..2 frames: registers set through the bus, time delivered by MemoryAreas::run_clock_cycles, LY / STAT / IF read through the bus after every batch", r);
+    let cm = rep.add_stage("in-the-machine", "STAT byte {00,78,45} x LYC {0,144} x device context {idle, OAM DMA in flight, timer on, both} x screen content {blank with LCDC=91, every LCDC feature on with 40 objects / window / scroll} x 7 batch schedules over 1..2 frames: registers set through the bus, time delivered by MemoryAreas::run_clock_cycles, LY / STAT / IF read through the bus after every batch", r);
     machine_transitions += cm[C_JUDGED];
   }
   let transitions = transitions + machine_transitions;
